@@ -42,7 +42,7 @@ def build(cfg, om=None):
         import src.optimizer.optimizer as om
     N = cfg["N"]
     tag = cfg.get("tag", "")
-    SI.reset()
+    SI.reset(cfg.get("tape", ()))
     undo = SI.install(om)
     try:
         M = Model()
@@ -119,6 +119,9 @@ def build(cfg, om=None):
             sup += [S["area"][m] >= S["area"][m - 1] for m in range(1, N)]
         for v in pins.values():
             sup += [x >= 0 for x in v]
+        # decisions the builder took on supply values (strict comparisons in `if`): the constraint system is the one of this branch only
+        M.branch = list(SI.BRANCH["log"])
+        sup += [c if d else z3.Not(c) for c, d in M.branch]
         M.sup = sup
         M.objective = model.objective.e.z if model.objective is not None else None
         M.run = [r.z for r in run]
@@ -166,3 +169,18 @@ def waste_consts(cfg):
 def W(cfg, food=None):
     """gross-up factor for retail waste, written as the exact rational of 1/(1-w/100) computed like the code does (x * 1 / (1 - w/100))"""
     return q(1) / q(1 - waste(cfg, food) / 100)
+
+
+def build_all(cfg, limit=64):
+    """every branch of a builder that branches on supply values: yields Models (one per decision tape); raises OverflowError beyond `limit` tapes"""
+    todo = [[]]
+    done = 0
+    while todo:
+        tape = todo.pop()
+        M = build(dict(cfg, tape=tape))
+        done += 1
+        if done > limit:
+            raise OverflowError("more than %d branches on supply values in the builder" % limit)
+        for i in range(len(tape), len(M.branch)):
+            todo.append([d for _, d in M.branch[:i]] + [not M.branch[i][1]])
+        yield M
